@@ -311,4 +311,179 @@ example : DecoOk C01Oof.exDoc.root ∧
   simp [C01Oof.exDoc, Witness.mkDoc, DecoOk, DecoOkList, PStyle.DecoOk, Witness.flow, Witness.floated,
     Witness.absolute, Witness.st0, Rat.add_zero]
 
+/-! ### progress of the out-of-flow part of the page loop (round 8)
+
+`page_progress` / `paginate_terminates` above speak of the flow. What `context.broken_out_of_flow` drives makes
+progress as well: every continuation strictly advances the position of its box, so a box is continued on at
+most `size box` pages. (The Python oracle `progress_violation` samples this on the fragments; here it holds for
+every box, page and state.) -/
+
+/-- **An out-of-flow box laid out on a page shows something**: `float_layout` / `absolute_box_layout` call
+`block_container_layout` with `page_is_empty = True`, so when the box is cut the returned resume position is
+strictly after the one it was started from (and inside the box). -/
+theorem out_of_flow_layout_progress (box : OBox) (hg : Good box) (c : Ctx) (idx : Nat) (y bs : Rat)
+    (skip : Option Resume) (w : World) (hwf : WfSkip box skip) (ρ : Resume)
+    (hρ : (layoutBox c box idx y bs skip false true [] w).resume = some ρ) :
+    pos box skip < pos box (some ρ) ∧ pos box (some ρ) < size box := by
+  have hsome := box_some box c idx y bs skip false [] w
+  cases hfr : (layoutBox c box idx y bs skip false true [] w).frag with
+  | none => rw [hfr] at hsome; simp at hsome
+  | some f =>
+    exact ⟨(layout_progress box hg c idx y bs skip false true [] w hwf f ρ hfr hρ).2 rfl, pos_lt_size box _⟩
+
+/-- **Progress of a continuation** (`make_page`, one iteration of the loop over `context.broken_out_of_flow`):
+what is registered again for the box — if anything — is a position strictly after the one this page continued
+it from. With `pos < size` an out-of-flow box is therefore continued on at most `size box` pages: it cannot
+keep the page loop alive for ever (C03 progress / C02 bounded page count, for the out-of-flow part). -/
+theorem continuation_progress (c : Ctx) (rootTop : Rat) (acc : World × List OFrag) (e : Broken)
+    (hg : Good e.box) (hwf : WfSkip e.box (some e.resume)) :
+    ∃ r : LayoutResult,
+      (contStep c rootTop acc e).1.broken.map (fun b => (b.box.id, b.resume)) =
+        r.w.broken.map (fun b => (b.box.id, b.resume)) ++
+          (match r.resume with | some ρ => [(e.box.id, ρ)] | none => []) ∧
+      ∀ ρ, r.resume = some ρ →
+        pos e.box (some e.resume) < pos e.box (some ρ) ∧ pos e.box (some ρ) < size e.box := by
+  unfold contStep
+  dsimp only
+  split
+  · -- a float
+    have hsome := box_some e.box c 0 (floatY acc.1.shapes e.box.st.clear rootTop) 0 (some e.resume) false []
+      { acc.1 with shapes := [] }
+    have hprog := out_of_flow_layout_progress e.box hg c 0 (floatY acc.1.shapes e.box.st.clear rootTop) 0
+      (some e.resume) { acc.1 with shapes := [] } hwf
+    cases hfr : (layoutBox c e.box 0 (floatY acc.1.shapes e.box.st.clear rootTop) 0 (some e.resume) false true []
+        { acc.1 with shapes := [] }).frag with
+    | none => rw [hfr] at hsome; simp at hsome
+    | some f0 =>
+      unfold floatDone
+      simp only [hfr]
+      refine ⟨_, ?_, hprog⟩
+      simp only [List.map_append]
+      cases (layoutBox c e.box 0 (floatY acc.1.shapes e.box.st.clear rootTop) 0 (some e.resume) false true []
+        { acc.1 with shapes := [] }).resume <;> simp [World.shift]
+  · -- an absolutely positioned box
+    have hsome := layoutAbs_isSome c (boxDepth e.box) e.box e.idx rootTop (some e.resume) acc.1
+    cases hfr : (layoutAbs c (boxDepth e.box) e.box e.idx rootTop (some e.resume) acc.1).frag with
+    | none => rw [hfr] at hsome; simp at hsome
+    | some f =>
+      simp only
+      refine ⟨layoutAbs c (boxDepth e.box) e.box e.idx rootTop (some e.resume) acc.1, ?_, ?_⟩
+      · simp only [List.map_append]
+        cases (layoutAbs c (boxDepth e.box) e.box e.idx rootTop (some e.resume) acc.1).resume <;> simp
+      · intro ρ hρ
+        rw [layoutAbs_resume] at hρ
+        exact out_of_flow_layout_progress e.box hg c e.idx rootTop 0 (some e.resume) _ hwf ρ hρ
+
+/-- The same with the world invariant: for a registered item of a good document no hypothesis is left. -/
+theorem continuation_progress_ok (c : Ctx) (rootTop : Rat) (acc : World × List OFrag) (e : Broken) (he : EOk e) :
+    ∃ r : LayoutResult,
+      (contStep c rootTop acc e).1.broken.map (fun b => (b.box.id, b.resume)) =
+        r.w.broken.map (fun b => (b.box.id, b.resume)) ++
+          (match r.resume with | some ρ => [(e.box.id, ρ)] | none => []) ∧
+      ∀ ρ, r.resume = some ρ →
+        pos e.box (some e.resume) < pos e.box (some ρ) ∧ pos e.box (some ρ) < size e.box :=
+  continuation_progress c rootTop acc e (good_of_deep e.box he.1) he.2
+
+/-- A strictly increasing sequence of positions below `n` has at most `n` members: the number of pages an
+out-of-flow box of size `n` can be continued on. -/
+theorem increasing_bounded (n : Nat) : ∀ (l : List Nat), l.Pairwise (· < ·) → (∀ x ∈ l, x < n) → l.length ≤ n := by
+  induction n with
+  | zero =>
+    intro l _ hb
+    cases l with
+    | nil => simp
+    | cons x xs => exact absurd (hb x List.mem_cons_self) (Nat.not_lt_zero x)
+  | succ n ih =>
+    intro l hp hb
+    -- drop the last (largest) element
+    cases hl : l.reverse with
+    | nil => simp [List.reverse_eq_nil_iff.mp hl]
+    | cons m rest =>
+      have hlist : l = rest.reverse ++ [m] := by
+        have := congrArg List.reverse hl
+        simpa using this
+      subst hlist
+      rw [List.pairwise_append] at hp
+      have hrest : rest.reverse.length ≤ n := by
+        apply ih _ hp.1
+        intro x hx
+        have h1 : x < m := hp.2.2 x hx m (by simp)
+        have h2 : m < n + 1 := hb m (by simp)
+        omega
+      simp only [List.length_append, List.length_singleton]
+      omega
+
+/-- The successive positions from which one out-of-flow box is continued, page after page: each is the resume
+position returned by the continuation layout (`float_layout` / `absolute_box_layout`, `page_is_empty = True`,
+any page, any state) started at the previous one. -/
+inductive ContChain (box : OBox) : Resume → List Resume → Prop
+  | nil (ρ : Resume) : ContChain box ρ []
+  | cons {ρ ρ' : Resume} {l : List Resume} :
+      (∃ (c : Ctx) (idx : Nat) (y bs : Rat) (w : World),
+        (layoutBox c box idx y bs (some ρ) false true [] w).resume = some ρ') →
+      ContChain box ρ' l → ContChain box ρ (ρ' :: l)
+
+theorem contChain_positions (box : OBox) (hg : Good box) : ∀ (ρ : Resume) (l : List Resume),
+    ContChain box ρ l → WfSkip box (some ρ) →
+    (pos box (some ρ) :: l.map (fun r => pos box (some r))).Pairwise (· < ·) ∧
+      ∀ x ∈ l.map (fun r => pos box (some r)), x < size box := by
+  intro ρ l h
+  induction h with
+  | nil ρ => intro _; simp
+  | @cons ρ ρ' l hstep _ ih =>
+    intro hwf
+    obtain ⟨c, idx, y, bs, w, hρ'⟩ := hstep
+    have hprog := out_of_flow_layout_progress box hg c idx y bs (some ρ) w hwf ρ' hρ'
+    have hsome := box_some box c idx y bs (some ρ) false [] w
+    have hwf' : WfSkip box (some ρ') := by
+      cases hfr : (layoutBox c box idx y bs (some ρ) false true [] w).frag with
+      | none => rw [hfr] at hsome; simp at hsome
+      | some f =>
+        have := C01Oof.segment_wf box hg c idx y bs (some ρ) false true [] w hwf f hfr
+        rw [hρ'] at this
+        exact this
+    obtain ⟨hpw, hb⟩ := ih hwf'
+    rw [List.pairwise_cons] at hpw
+    constructor
+    · simp only [List.map_cons]
+      rw [List.pairwise_cons]
+      refine ⟨?_, List.pairwise_cons.mpr hpw⟩
+      intro x hx
+      simp only [List.mem_cons] at hx
+      rcases hx with rfl | hx
+      · exact hprog.1
+      · exact Nat.lt_trans hprog.1 (hpw.1 x hx)
+    · intro x hx
+      simp only [List.map_cons, List.mem_cons] at hx
+      rcases hx with rfl | hx
+      · exact hprog.2
+      · exact hb x hx
+
+/-- **An out-of-flow box is continued on at most `size box` pages**, whatever the pages are: the C03 / C02
+clause "the page count is bounded by the amount of content" for the part of the page loop that
+`context.broken_out_of_flow` drives. -/
+theorem continuation_bounded (box : OBox) (hg : Good box) (ρ : Resume) (l : List Resume)
+    (h : ContChain box ρ l) (hwf : WfSkip box (some ρ)) : l.length ≤ size box := by
+  obtain ⟨hpw, hb⟩ := contChain_positions box hg ρ l h hwf
+  rw [List.pairwise_cons] at hpw
+  have := increasing_bounded (size box) _ hpw.2 hb
+  simpa using this
+
+/-! Non-vacuity: a 14-line float on 50px pages, continued from line 2: the continuation shows lines 2–6 and
+registers line 7 (position 2 < 7 < size 15); so a one-step chain exists, and the hypotheses hold. -/
+private def exFloat : OBox := .para 2 14 10 (Witness.floated Witness.st0)
+private def exCtx : Ctx := { pageBottom := 50, currentPage := 2, forcedBreak := false }
+
+example : ((layoutBox exCtx exFloat 0 0 0 (some (.node 0 (some (.line 2)))) false true [] World.empty).resume.map
+      (fun r => pos exFloat (some r)), pos exFloat (some (.node 0 (some (.line 2)))), size exFloat) =
+    (some 7, 2, 15) := by decide +kernel
+
+example : Good exFloat ∧ WfSkip exFloat (some (.node 0 (some (.line 2)))) ∧
+    ∃ ρ', ContChain exFloat (.node 0 (some (.line 2))) [ρ'] := by
+  refine ⟨by simp [exFloat, Good, Witness.floated, Witness.st0], by simp [exFloat, WfSkip], ?_⟩
+  have h : (layoutBox exCtx exFloat 0 0 0 (some (.node 0 (some (.line 2)))) false true []
+      World.empty).resume.isSome = true := by decide +kernel
+  obtain ⟨ρ', hρ'⟩ := Option.isSome_iff_exists.mp h
+  exact ⟨ρ', .cons ⟨exCtx, 0, 0, 0, World.empty, hρ'⟩ (.nil ρ')⟩
+
 end Wp.PMO.C03Oof
